@@ -67,7 +67,7 @@ Definition drop_eqb (a b : drop) : bool :=
 
 Definition outcome_eqb (a b : outcome) : bool :=
   match a, b with
-  | ODropped x, ODropped y => drop_eqb x y
+  | ODropped x, ODropped y => true   (* the qlog trigger is reported (model_obs) but never declares a mismatch *)
   | OBuffered, OBuffered | OProcessed, OProcessed | ORetryAccepted, ORetryAccepted | OVNError, OVNError
   | ORemoteClose, ORemoteClose | OTPOk, OTPOk | OTPError, OTPError | ONone, ONone => true
   | ORecreate v, ORecreate w => v =? w
